@@ -15,11 +15,17 @@ def main(argv=None):
     ap.add_argument("--all", action="store_true")
     ap.add_argument("--list", action="store_true")
     ap.add_argument("--manifest", action="store_true")
+    ap.add_argument("--monitored-tests", action="store_true", help="run the repository's own tests with the monitors attached")
     a = ap.parse_args(argv)
     from . import runner
     if a.self_test:
         from . import selftest
         return selftest.main()
+    if a.monitored_tests:
+        import subprocess
+        from . import REPO_DIR
+        return subprocess.call([sys.executable, "-m", "pytest", "-q", "-p", "eqlmon.pytest_plugin", "-p", "no:cacheprovider",
+                                "--deselect", "test/test_rendering.py"], cwd=REPO_DIR)
     if a.manifest:
         from . import manifest
         manifest.main()
